@@ -130,6 +130,15 @@ def run(spec, opts=None, kw=None, init_budget=400_000, stepping=None, keep_model
                 I.watchdog_arm(5_000_000)
                 if stepping is None:
                     model.run_model(till_termination=True, initialize_model=False)
+                elif isinstance(stepping, tuple) and stepping[0] == "random":
+                    # random composition; a call never starts after termination
+                    srng = np.random.default_rng(int(stepping[1]))
+                    parts = []
+                    while not model._clock_struct.model_is_finished:
+                        kstep = int(srng.choice([1, 1, 2, 3, 7, 30, 365, 10 ** 6]))
+                        parts.append(kstep)
+                        model.run_model(num_steps=kstep, initialize_model=False)
+                    tr.parts = parts
                 else:
                     for kstep in stepping:
                         model.run_model(num_steps=int(kstep), initialize_model=False)
